@@ -160,7 +160,8 @@ class C02(Prop):
                 k["noreply"] = nr
         elif m == "cas":
             a = [E(key()), E(value()),
-                 E(rng.choice([0, 1, 2 ** 64 - 1, "123", b"456", "12a", b"1 noreply", -1, 1.5, None, "", b"\r\n", "١٢"]))]
+                 E(rng.choice([0, 1, 2 ** 64 - 1, "123", b"456", "12a", b"1 noreply", -1, 1.5, None, "", b"\r\n", "١٢",
+                                b"123\n", "7\n", b"5\r", b"5\r\n", b" 5", b"5 ", b"\n5", "+5", b"5\x00", b"0x1f", "1_0"]))]
             if rng.random() < 0.5:
                 k["expire"] = E(maybe_bad(expire()))
             if nr is not None:
